@@ -16,7 +16,7 @@
 (***************************************************************************)
 EXTENDS Naturals, Sequences, FiniteSets, TLC, TLCExt, Json, IOUtils
 
-Traces == ndJsonDeserialize(IOEnv.TRACE_FILE)
+Traces == TLCEval(ndJsonDeserialize(IOEnv.TRACE_FILE))
 NT == Len(Traces)
 
 VARIABLES tid, si, l, seen, done, last
@@ -52,7 +52,7 @@ Init == /\ tid \in 1..NT /\ si = 1 /\ l = 1 /\ seen = {} /\ done = {} /\ last = 
 
 Emit == /\ si <= NS /\ l <= Len(Sess.ev)
         /\ LET e == Sess.ev[l] IN
-             /\ AllTrue(EmitClauses(e))
+             /\ (AllTrue(EmitClauses(e)) = TRUE)
              /\ seen' = seen \cup {Key(e)}
              /\ last' = e.r
         /\ l' = l + 1 /\ UNCHANGED <<tid, si, done>>
@@ -68,7 +68,7 @@ EndClauses == <<
   << "C08_nothing_lost", (C08 /\ T.exhausted) => done \cup seen = Nodes >> >>
 
 End == /\ si = NS /\ l = Len(Sess.ev) + 1
-       /\ AllTrue(EndClauses)
+       /\ (AllTrue(EndClauses) = TRUE)
        /\ si' = NS + 1 /\ UNCHANGED <<tid, l, seen, done, last>>
 
 Next == Emit \/ NextSession \/ End
@@ -77,6 +77,11 @@ Spec == Init /\ [][Next]_vars
 Accepted == si = NS + 1
 Why == IF si <= NS /\ l <= Len(Sess.ev) THEN FirstFalse(EmitClauses(Sess.ev[l]))
        ELSE IF si = NS THEN FirstFalse(EndClauses) ELSE "?"
+(* Next is deterministic; the stuck condition is written out as a state predicate because TLC's
+   ENABLED evaluator branches on every disjunction inside the clauses *)
+CanEmit == si <= NS /\ l <= Len(Sess.ev) /\ AllTrue(EmitClauses(Sess.ev[l]))
+CanNextSession == si < NS /\ l = Len(Sess.ev) + 1
+CanEnd == si = NS /\ l = Len(Sess.ev) + 1 /\ AllTrue(EndClauses)
 Report == /\ (Accepted => PrintT(<<"ACCEPT", T.tid>>))
-          /\ ((~ENABLED Next /\ ~Accepted) => PrintT(<<"STUCK", T.tid, si, l, Why>>))
+          /\ ((~Accepted /\ ~CanEmit /\ ~CanNextSession /\ ~CanEnd) => PrintT(<<"STUCK", T.tid, si, l, Why>>))
 =============================================================================
